@@ -8,6 +8,8 @@ only = set(sys.argv[2:])
 root = os.path.join(os.path.dirname(os.path.abspath(__file__)), "..", "seeded")
 def sh(cmd, **kw):
     return subprocess.run(cmd, shell=True, capture_output=True, text=True, **kw)
+if os.path.exists(wt):
+    sys.exit(f"{wt} exists already: this tool creates and removes its own scratch worktree")
 sh(f"git -C /repo worktree add --detach {wt} HEAD")
 try:
     for sid in sorted(os.listdir(root)):
